@@ -679,6 +679,13 @@ class SmallVectorBase : private Alloc {
       // Besides, if 'this' is large, let's not shrink to small size and keep our dynamic memory for now.
       // To sum-up, in this context, we do not touch our capacity, only move and relocates o's elements
       SizeType oSize = o._capa;  // 'o' is small: its size is stored in the capacity word
+      if (!isSmall() && _capa < oSize) {
+        // Our dynamic storage can be smaller than the inline capacity when it has been adopted from an amc::vector
+        // (move construction from a vector, swap2): it cannot hold o's elements, go back to the small state.
+        destroyFreeStorage();
+        _capa = 0;
+        _size = inplaceCapa;
+      }
       move_n(o._storage.ptr(), oSize, begin(), size());
       o._capa = 0;
       o._size = inplaceCapa;
